@@ -171,22 +171,95 @@ def rel_implies(op, want):
     return want in table[op]
 
 
-def edges_implying(fn, pr, want, is_a, is_b, strip=True):
+_impl_cache = {}
+
+
+def bool_fn_implications(F, path):
+    """[(op, x, y)] relations over the callee's parameters that hold whenever the crate-local, loop-free bool
+    function `path` returns true (intersection over its true-returning paths); [] when unknown."""
+    if path in _impl_cache:
+        return _impl_cache[path]
+    res = []
+    fn = F.fns.get(path)
+    _impl_cache[path] = res
+    if fn is None or fn.local_ty(0) != "bool" or fn.cfg.has_loops():
+        return res
+    try:
+        paths, pr = dtree.enumerate_paths(fn, max_paths=200)
+    except Exception:
+        return res
+    sets = []
+    for p in paths:
+        if p.end != "return":
+            continue
+        facts = set()
+        ok = True
+        for (b, t, lab, ty, others) in p.conds:
+            if ty != "bool":
+                ok = False
+                break
+            truth = (others == [0]) if lab == "otherwise" else bool(lab)
+            r = norm_rel(t, truth)
+            if r is None or r[0] == "call":
+                continue
+            facts.add((r[0], P.strip(r[1]), P.strip(r[2])))
+        if not ok:
+            return res
+        leaf = dtree.path_term(fn, p, 0)
+        if leaf == ("bool", False):
+            continue
+        if leaf != ("bool", True):
+            r = norm_rel(leaf, True)
+            if r is None or r[0] == "call":
+                return res
+            facts.add((r[0], P.strip(r[1]), P.strip(r[2])))
+        sets.append(facts)
+    if not sets:
+        return res
+    common = set.intersection(*sets)
+    res.extend(sorted(common, key=str))
+    return res
+
+
+def call_implied_relations(F, term, truth):
+    """relations between *argument terms* implied by a true call of a crate-local bool helper"""
+    if F is None or not truth or term[0] != "call" or term[1] not in F.fns:
+        return []
+    out = []
+    for (op, x, y) in bool_fn_implications(F, term[1]):
+        def sub(z):
+            if z[0] == "param" and 1 <= z[1] <= len(term[2]):
+                return term[2][z[1] - 1]
+            return None
+        ax, ay = sub(x), sub(y)
+        if ax is not None and ay is not None:
+            out.append((op, ax, ay))
+    return out
+
+
+def edges_implying(fn, pr, want, is_a, is_b, strip=True, F=None):
     """edges (block,label) of bool switches whose condition implies `A want B` where terms
     satisfying is_a / is_b stand for A / B (either operand order)."""
     out = []
     for b, lab, truth, term in bool_edges(fn, pr):
+        rels = []
         n = norm_rel(term, truth)
-        if n is None or n[0] == "call":
-            continue
-        op, x, y = n
-        xs, ys = (P.strip(x), P.strip(y)) if strip else (x, y)
-        if is_a(xs) and is_b(ys):
-            if rel_implies(op, want):
-                out.append((b, lab))
-        elif is_a(ys) and is_b(xs):
-            if rel_implies(FLIP[op], want):
-                out.append((b, lab))
+        if n is not None and n[0] != "call":
+            rels.append(n)
+        tt, tr = term, truth
+        while tt[0] == "un" and tt[1] == "Not":
+            tt, tr = tt[2], not tr
+        rels.extend(call_implied_relations(F, tt, tr))
+        for (op, x, y) in rels:
+            xs, ys = (P.strip(x), P.strip(y)) if strip else (x, y)
+            if is_a(xs) and is_b(ys):
+                if rel_implies(op, want):
+                    out.append((b, lab))
+                    break
+            elif is_a(ys) and is_b(xs):
+                if rel_implies(FLIP[op], want):
+                    out.append((b, lab))
+                    break
     return out
 
 
